@@ -317,6 +317,10 @@ def main(tier, replay=None, rep=None, prop=PROP, cases=None):
 
         n_t4, _ = t4drv.conformance(rep, rd, PROP, tier, [c for c in cases if "S" in c][: 120 if tier == "quick" else 1500], seed())
         n_disp += n_t4
+        import t2drv
+
+        n_t2, _ = t2drv.conformance(rep, rd, PROP, tier, seed())
+        n_disp += n_t2
     shutil.rmtree(rd, ignore_errors=True)
     if collect:
         return {"evaluations": n_ev, "nontrivial": nontrivial, "traces": len(traces), "verdict_counts": counts}
